@@ -13,6 +13,10 @@ def run_ops(ctx, rep, cfg, F, ops, rules, mode, floor, only_mut=None, ctors=True
     n = 0
     for op in ops:
         n += setops.check_op(ctx, rep, F, op, rules, only_mut=only_mut, mode=mode)
+        if mode == "struct":
+            from . import common as C
+            tys = {k[1:].split(" as ")[0] for k, info in setops.OPS[op]["iters"].items() if only_mut is None or info["mut"] == only_mut}
+            C.check_iterator_overrides(rep, F, rules["push"], lambda t: t in tys)
         if not ctors:
             continue
         for ctor, info in setops.OPS[op]["ctors"].items():
